@@ -108,7 +108,7 @@ func GenDoc(t *rapid.T, o GenOpts) Doc {
 			if o.NoEmptyParas || rapid.IntRange(0, 9).Draw(t, "empty") < 9 {
 				b.Runs = g.para(false, 3)
 			}
-			b.Style = rapid.SampledFrom([]string{"", "", "body", "quote"}).Draw(t, "pstyle")
+			b.Style = rapid.SampledFrom([]string{"", "", "body", "quote", "lead"}).Draw(t, "pstyle")
 			if o.NumOff && len(b.Runs) > 0 && rapid.IntRange(0, 4).Draw(t, "numOff") == 0 {
 				b.NumOff = true
 			}
